@@ -141,7 +141,7 @@ func init() {
 		})
 		u.Grounds = append(u.Grounds, Ground{Name: u.Name + "/drawn-paths-reach-the-message", OK: stored,
 			Text: "the FieldMask message holds the drawn paths: the filled list is the field's own list (Mutable) or is stored with Set",
-			Tag: map[string]string{"kind": "overlay-test", "pkg": "rapidproto", "src": rapidMaskReplay}})
+			Tag:  map[string]string{"kind": "overlay-test", "pkg": "rapidproto", "src": rapidMaskReplay}})
 	}
 }
 
